@@ -24,9 +24,9 @@ LEVEL = "fault_enumeration"
 RULE = ("case kinds: (static) generated UFO x compileTTF/compileOTF x options (removeOverlaps both "
         "back ends, flattenComponents, skipExportGlyphs, custom + lib filters: propagateAnchors, "
         "transformations, decomposeTransformedComponents, sortContours, reverseContourDirection, "
-        "useProductionNames, CFF2, debugFeatureFile) x history (once / twice / TTF then OTF); "
+        "useProductionNames, CFF2, debugFeatureFile, layerName of an empty / all-non-exported / sparse layer, DottedCircle with and without a U+25CC glyph in the source) x history (once / twice / TTF then OTF); "
         "(family) generated 2-4 master designspace x the 7 designspace / list compile functions x "
-        "options; (fixture) every UFO / designspace under tests/data opened with both libraries; "
+        "options (incl. sparse masters whose working glyph set is empty + per-master filters); (fixture) every UFO / designspace under tests/data opened with both libraries; "
         "(raise) inputs that fail late; (failpoint) InjectedFault raised at a sampled function "
         "entry inside ufo2ft; (control) inplace=True must be SEEN to mutate.  distinct = sha1 of the "
         "case; non-trivial = the compile ran (returned or raised inside ufo2ft) and every source "
